@@ -253,6 +253,21 @@ func VfStartPoint(tg *vfdoubles.Target, ids []string) string {
 	if db < 0 {
 		return "none"
 	}
+	// an exact tie (same offset AND same mtime in two databases) is decided by Go's map order
+	// over INFO keyspace: reported as "tie" (the model reports the same when ascending and
+	// descending database order disagree)
+	if mp, err := getDbMap(cli); err == nil {
+		n := 0
+		for d := range mp {
+			c, err := fetchCheckpoint(ids, cli, int(d), name)
+			if err == nil && c.Offset == cpi.Offset && c.Mtime == cpi.Mtime {
+				n++
+			}
+		}
+		if n > 1 {
+			return "tie"
+		}
+	}
 	return fmt.Sprintf("%d@%d", cpi.Offset, db)
 }
 
